@@ -266,6 +266,20 @@ func (e *Env) eval(x SExpr) Term {
 			r.T = types.NewPointer(to.T)
 			return r
 		}
+		if x.Fun == "ptrto" && len(x.Args) == 2 {
+			// ptrto(TypeName, p): the untyped pointer p (e.g. unboxptr of an interface value) viewed as *TypeName
+			id, ok := x.Args[0].(SIdent)
+			if !ok {
+				e.fail("ptrto(TypeName, pointer)")
+			}
+			to := fc.resolveType(e.pkgName, id.Name)
+			pv := e.eval(x.Args[1])
+			if pv.Sort != SPtr || to.T == nil {
+				e.fail("ptrto(%s, ...): needs a pointer and a named type", id.Name)
+			}
+			pv.T = types.NewPointer(to.T)
+			return pv
+		}
 		if x.Fun == "elemOwner" && len(x.Args) == 2 {
 			// elemOwner(TypeName, p): the object of struct type TypeName one of whose array fields
 			// contains the element that p points to
@@ -792,6 +806,27 @@ func (e *Env) call(c SCall) Term {
 		for _, a := range c.Args {
 			for _, name := range e.compNames(a) {
 				cs = append(cs, tEq(fc.comp(e.st, name), fc.comp(e.old, name)))
+			}
+		}
+		return tAnd(cs...)
+	case "unchangedOld":
+		// unchangedOld(COMP, ...): the components keep their value at every location that existed in the old state
+		if e.old == nil {
+			e.fail("unchangedOld() needs an old state")
+		}
+		var cs []Term
+		for _, a := range c.Args {
+			for _, name := range e.compNames(a) {
+				cur, old := fc.comp(e.st, name), fc.comp(e.old, name)
+				if cur.S == old.S {
+					continue
+				}
+				cur = fc.nameTerm("hc", cur)
+				fc.n++
+				q := fmt.Sprintf("q!q%d", fc.n)
+				fc.usesRootid = true
+				cs = append(cs, mk(fmt.Sprintf("(forall ((%s Ptr)) (! (=> (< (rootid %s) %s) (= (select %s %s) (select %s %s))) :pattern ((select %s %s))))",
+					q, q, e.old.nextID.S, cur.S, q, old.S, q, cur.S, q), SBool, nil))
 			}
 		}
 		return tAnd(cs...)
